@@ -100,6 +100,9 @@ def sonify_ops(r):
                                           np.linspace(0, 1, 10), fs), {}))
     ops.append(("sonify.pitch_contour", (np.linspace(0, 1, 20),
                                          np.array([220.0, -220.0] * 10), fs), {}))
+    # NaN is a documented "un-voiced" marker
+    fq = np.array([220.0, np.nan, 330.0, 0.0, np.nan, 440.0, -110.0, 220.0])
+    ops.append(("sonify.pitch_contour", (np.linspace(0, 1, 8), fq, fs), {}))
     ops.append(("sonify.chroma", (np.abs(rng.standard_normal((12, 8))),
                                   np.linspace(0, 1, 8), fs), {}))
     ops.append(("sonify.chords", (["C", "D:min", "N", "X"],
